@@ -23,6 +23,9 @@ Value space: every numeric argument includes 0 and the boundaries (ids 0, 1, 2^3
 file's current state differs from what is requested (files start owned by a random non-zero uid:gid when the run is
 root).  The request must be a function of the caller's arguments only: exactly one SETSTAT / FSETSTAT per operation
 (no STAT first), carrying exactly those numbers (compared with the model's attribute block).
+Symbolic links: by-path operations on served paths that are links (to a file, a chain, to a directory, dangling); the
+twin gets the same os.* call on the same path (os.* follows links); the target (stat) AND the link itself (lstat) are
+compared.  The recorded-OS trace also records keyword arguments (follow_symlinks=..., dir_fd=...) handed to the OS call.
 Oracle (model-independent): a real session against tests._stub_sftp.StubSFTPServer; every operation is applied
 to the served file through SFTPClient (by path) or SFTPFile (by open handle) and to a twin file with
 os.chmod/os.chown/os.utime/os.truncate; contents, mode, owner, size (and integer times for utime) must be equal.
@@ -47,17 +50,28 @@ class Recorder:
     def __getattr__(self, name):
         return getattr(self._real, name)
 
-    def chmod(self, filename, mode):
-        self.trace.append("chmod:%d" % mode)
+    @staticmethod
+    def _kw(kw):  # any keyword argument changes what the OS call means (follow_symlinks, dir_fd, ns): record it
+        return "".join(" %s=%r" % (k, kw[k]) for k in sorted(kw)).replace(" ", ",")
 
-    def chown(self, filename, uid, gid):
-        self.trace.append("chown:%d:%d" % (uid, gid))
+    def chmod(self, filename, mode, **kw):
+        self.trace.append("chmod:%d%s" % (mode, self._kw(kw)))
 
-    def utime(self, filename, times):
-        self.trace.append("utime:%d:%d" % (times[0], times[1]))
+    def chown(self, filename, uid, gid, **kw):
+        self.trace.append("chown:%d:%d%s" % (uid, gid, self._kw(kw)))
 
-    def truncate(self, filename, size):
-        self.trace.append("truncate:%d" % size)
+    def utime(self, filename, times=None, **kw):
+        self.trace.append("utime:%d:%d%s" % (times[0], times[1], self._kw(kw)))
+
+    def truncate(self, filename, size, **kw):
+        self.trace.append("truncate:%d%s" % (size, self._kw(kw)))
+
+    @property
+    def supports_follow_symlinks(self):
+        # the stand-ins support what the real functions support, so code that asks gets the real answer
+        real = self._real
+        return {getattr(self, n) for n in ("chmod", "chown", "utime", "truncate")
+                if getattr(real, n) in real.supports_follow_symlinks} | set(real.supports_follow_symlinks)
 
 
 class RecordedFile:
@@ -288,6 +302,124 @@ def handle_programs(ctx, lib, rng, A, n_prog, is_root):
             ctx.dist("handle-program-vs-model")
             if got != impl:
                 ctx.disagree("open-handle program: requests on the wire | served file", case, got[:300], impl[:300])
+
+
+def symlink_paths(ctx, lib, rng, n_cases, is_root):
+    """By-path operations on served paths that are SYMBOLIC LINKS (to a file, a chain of links, to a directory,
+    dangling).  os.chmod / os.chown / os.utime / os.truncate follow links; the twin tree gets the same os.* call on the
+    same path.  Compared: the TARGET (stat: owner, mode, size, contents, times for utime) and the LINK itself (lstat:
+    owner, mtime)."""
+    root, twin_root = tempfile.mkdtemp(prefix="pv-c31-lsrv-"), tempfile.mkdtemp(prefix="pv-c31-ltwin-")
+
+    def look(base, name, with_times):
+        p = os.path.join(base, name)
+        out = {}
+        try:
+            ls = os.lstat(p)
+            out["link"] = (stat.S_ISLNK(ls.st_mode), ls.st_uid, ls.st_gid, int(ls.st_mtime))
+        except OSError as e:
+            out["link"] = type(e).__name__
+        try:
+            st = os.stat(p)
+            out["target"] = {"mode": stat.S_IMODE(st.st_mode), "uid": st.st_uid, "gid": st.st_gid}
+            if with_times:
+                out["target"]["times"] = (int(st.st_atime), int(st.st_mtime))
+            if stat.S_ISREG(st.st_mode):
+                out["target"]["size"] = st.st_size
+                if not with_times:  # reading would touch the access time that a utime case compares
+                    with open(p, "rb") as f:
+                        out["target"]["content"] = f.read()
+        except OSError as e:
+            out["target"] = type(e).__name__
+        return out
+
+    try:
+        with lib.Session(root=root) as s:
+            client = s.client
+            for j in range(n_cases):
+                content = rng.randbytes(rng.choice([0, 5, 300, 4000]))
+                u0, g0 = (rng.randrange(1, 60000), rng.randrange(1, 60000)) if is_root else (os.geteuid(), os.getegid())
+                t0 = (rng.randrange(1, 1 << 31), rng.randrange(1, 1 << 31))
+                tl = (rng.randrange(1, 1 << 31), rng.randrange(1, 1 << 31))
+                names = {"file-link": "l%d" % j, "link-chain": "ll%d" % j, "dir-link": "ld%d" % j, "dangling": "dang%d" % j,
+                         "plain-file": "t%d" % j}
+                for base in (root, twin_root):
+                    tp, dp = os.path.join(base, "t%d" % j), os.path.join(base, "d%d" % j)
+                    with open(tp, "wb") as f:
+                        f.write(content)
+                    os.mkdir(dp)
+                    os.symlink("t%d" % j, os.path.join(base, "l%d" % j))
+                    os.symlink("l%d" % j, os.path.join(base, "ll%d" % j))
+                    os.symlink("d%d" % j, os.path.join(base, "ld%d" % j))
+                    os.symlink("nowhere%d" % j, os.path.join(base, "dang%d" % j))
+                    for q in (tp, dp):
+                        if is_root:
+                            os.chown(q, u0, g0)
+                        os.chmod(q, 0o750 if q == dp else 0o640)
+                        os.utime(q, t0)
+                    for ln in ("l%d", "ll%d", "ld%d", "dang%d"):
+                        q = os.path.join(base, ln % j)
+                        if is_root:
+                            os.chown(q, u0, g0, follow_symlinks=False)
+                        os.utime(q, tl, follow_symlinks=False)
+                which = rng.choice(["file-link", "file-link", "link-chain", "dir-link", "dangling", "plain-file"])
+                kind = rng.choice(["utime", "utime", "chown", "chown", "chmod", "truncate"])
+                if kind == "utime":
+                    args = ((rng.choice([0, 1, rng.randrange(1 << 32)]), rng.choice([0, (1 << 31) - 1, rng.randrange(1 << 32)])),)
+                elif kind == "chown":
+                    args = (rng.choice([0, 1, 1000, rng.randrange(1 << 16)]), rng.choice([0, 5, rng.randrange(1 << 16)])) \
+                        if is_root else (os.geteuid(), os.getegid())
+                elif kind == "chmod":
+                    args = (rng.choice([0o600, 0o644, 0o700, 0o4755, 0o755]),)
+                else:
+                    args = (rng.choice([0, len(content) // 2, len(content) + 10]),)
+                name = names[which]
+                case = {"op": kind, "args": list(args), "served_path": "/" + name, "path_is": which,
+                        "layout": "t -> regular file; l -> t; ll -> l; d -> directory; ld -> d; dang -> (nothing)",
+                        "initial_owner": [u0, g0]}
+                sftp_err = twin_err = None
+                try:
+                    getattr(client, kind)("/" + name, *args)
+                except IOError as e:
+                    if isinstance(e, TimeoutError):
+                        raise InfraError("SFTP request timed out")
+                    sftp_err = type(e).__name__
+                try:
+                    getattr(os, kind)(os.path.join(twin_root, name), *args)
+                except OSError as e:
+                    twin_err = type(e).__name__
+                ctx.case(("symlink", which, kind, args), which != "plain-file")
+                ctx.dist("symlink-path:%s:%s" % (which, kind))
+                if (sftp_err is None) != (twin_err is None):
+                    ctx.fail("error-outcome-differs", case, "sftp raised %s, os.%s raised %s" % (sftp_err, kind, twin_err))
+                else:
+                    for nm in sorted(set(names.values()) | {"d%d" % j}):
+                        tm = kind == "utime"
+                        got, want = look(root, nm, tm), look(twin_root, nm, tm)
+                        if got != want:
+                            part = "target" if got.get("target") != want.get("target") else "link"
+                            g_, w_ = got[part], want[part]
+                            if isinstance(g_, dict) and "content" in g_:
+                                g_, w_ = dict(g_, content="%d bytes" % len(g_["content"])), \
+                                    dict(w_, content="%d bytes" % len(w_["content"])) if isinstance(w_, dict) else w_
+                            ctx.fail("symlink-path:%s-of-%s-differs:%s" % (part, "link" if which != "plain-file" else "file", kind),
+                                     case, "/%s: served %r, os.%s twin %r" % (nm, g_, kind, w_))
+                            break
+                for base in (root, twin_root):
+                    for nm in ("l%d", "ll%d", "ld%d", "dang%d", "t%d"):
+                        try:
+                            os.remove(os.path.join(base, nm % j))
+                        except OSError:
+                            pass
+                    try:
+                        os.rmdir(os.path.join(base, "d%d" % j))
+                    except OSError:
+                        pass
+    except lib.SessionError as e:
+        raise InfraError("sftp loopback session: %s" % e)
+    finally:
+        shutil.rmtree(root, ignore_errors=True)
+        shutil.rmtree(twin_root, ignore_errors=True)
 
 
 def run(ctx):
@@ -589,6 +721,7 @@ def run(ctx):
         shutil.rmtree(twin_root, ignore_errors=True)
 
     handle_programs(ctx, lib, rng, A, 1500 if ctx.thorough else 260, is_root)
+    symlink_paths(ctx, lib, rng, 600 if ctx.thorough else 90, is_root)
 
     m3 = ctx.driver("C31", path_reqs)
     if m3 is not None:
@@ -677,6 +810,61 @@ def replay_handle_program(d):
         shutil.rmtree(twin_root, ignore_errors=True)
 
 
+def replay_symlink(d):
+    """rebuild the link layout (t, l -> t, ll -> l, d/, ld -> d, dang -> nothing), do the recorded by-path operation
+    through a session and with os.* on a twin, compare target (stat) and link (lstat)"""
+    from pv import lib_sftploop as lib
+
+    root, twin_root = tempfile.mkdtemp(prefix="pv-c31-lsrv-"), tempfile.mkdtemp(prefix="pv-c31-ltwin-")
+    name = {"file-link": "l", "link-chain": "ll", "dir-link": "ld", "dangling": "dang", "plain-file": "t"}[d["path_is"]]
+    try:
+        for base in (root, twin_root):
+            with open(os.path.join(base, "t"), "wb") as f:
+                f.write(b"hello world")
+            os.mkdir(os.path.join(base, "d"))
+            for ln, tg in (("l", "t"), ("ll", "l"), ("ld", "d"), ("dang", "nowhere")):
+                os.symlink(tg, os.path.join(base, ln))
+            for q, follow in (("t", True), ("d", True), ("l", False), ("ll", False), ("ld", False), ("dang", False)):
+                if os.geteuid() == 0 and d.get("initial_owner"):
+                    os.chown(os.path.join(base, q), *d["initial_owner"], follow_symlinks=follow)
+                os.utime(os.path.join(base, q), (1000, 2000), follow_symlinks=follow)
+        args = [tuple(a) if isinstance(a, list) else a for a in d["args"]]
+        errs = []
+        with lib.Session(root=root) as s:
+            try:
+                getattr(s.client, d["op"])("/" + name, *args)
+                errs.append(None)
+            except IOError as e:
+                errs.append(type(e).__name__)
+        try:
+            getattr(os, d["op"])(os.path.join(twin_root, name), *args)
+            errs.append(None)
+        except OSError as e:
+            errs.append(type(e).__name__)
+
+        def look(base, nm):
+            out = []
+            for fn in (os.lstat, os.stat):
+                try:
+                    st = fn(os.path.join(base, nm))
+                    out.append((stat.S_IMODE(st.st_mode), st.st_uid, st.st_gid, st.st_size, int(st.st_mtime)))
+                except OSError as e:
+                    out.append(type(e).__name__)
+            return out
+
+        bad = None if (errs[0] is None) == (errs[1] is None) else "outcome: sftp %s, os %s" % tuple(errs)
+        for nm in ("t", "l", "ll", "d", "ld", "dang"):
+            g, w = look(root, nm), look(twin_root, nm)
+            print("/%-5s served lstat/stat %r\n       twin   lstat/stat %r" % (nm, g, w))
+            if g != w and bad is None:
+                bad = "/%s differs" % nm
+        print("-> %s" % ("FAILS (%s)" % bad if bad else "holds"))
+        return 1 if bad else 0
+    finally:
+        shutil.rmtree(root, ignore_errors=True)
+        shutil.rmtree(twin_root, ignore_errors=True)
+
+
 def replay(data):
     """./check C31 --replay <file>: redo the recorded operation (same cwd, same path form, decoy files of the same name
     in /, /sub and /sub/deep) on fresh files through a real session and on twins with os.*"""
@@ -685,6 +873,8 @@ def replay(data):
     d = data["case"]
     if "open_mode" in d:
         return replay_handle_program(d)
+    if "path_is" in d:
+        return replay_symlink(d)
     if "op" not in d or d["op"] == "combo":
         print("replay covers single client operations; re-run ./check C31 with VERIF_SEED=%s" % data.get("seed"))
         return 0
